@@ -325,6 +325,14 @@ def run(model, rep, tier):
               and all("self.root" in a[0] for a in atoms(normalise_compare(n.ast.test)))]
     descents = [n.id for (n, c) in calls_with_nodes(cd8) if src(c.func) == "self.root.delete"]
     okk = bool(tests8) and bool(descents) and cd8.dominated_by_set(cd8.exit.id, [t_.id for t_ in tests8]) and all(cd8.dominated_by_set(t_.id, descents) for t_ in tests8)
+    # the descent raises ValueError for a non-matching `exact` element AFTER it may have merged nodes: the collapse must sit in a `finally` around it
+    callee_raises = any(isinstance(x, ast.Raise) for x in ast.walk(model.func("dns.btree._Node.delete").node))
+    if okk and callee_raises:
+        trys = [t_ for t_ in ast.walk(bd.node) if isinstance(t_, ast.Try) and any(isinstance(c, ast.Call) and src(c.func) == "self.root.delete" for b in t_.body for c in ast.walk(b))]
+        in_finally = any(any(x is tn.ast for b in t_.finalbody for x in ast.walk(b)) for t_ in trys for tn in tests8)
+        rep.check(in_finally, "R-19.8", bd.qualname, where(bd, tests8[0].ast), "the collapse also runs when the descent raises (it is in a `finally` around self.root.delete())",
+                  "self.root.delete() can raise (`exact delete did not match`) after it merged the root's last two children, and the empty-root test is not in a `finally` around it: "
+                  "the tree keeps an internal root with 0 keys and 1 child, and a later delete raises IndexError from merge()", stmt="root-collapse-on-raise")
     rep.check(okk, "R-19.8", bd.qualname, where(bd, tests8[0].ast if tests8 else bd.node), "the empty-root test follows the descent on every path",
               "the `len(self.root.elts) == 0` collapse runs only on some paths after self.root.delete() (e.g. only when an element was removed): deleting an absent key can still merge the root's last two "
               "children on the way down, leaving an internal root with 0 keys and 1 child", stmt="root-collapse")
